@@ -13,8 +13,11 @@ import time
 import warnings
 
 SHAPES = ["chain", "cycle", "selfref", "diamond", "inline_array", "shared_array", "inline_list", "shared_list",
-          "cyclic_inline_list", "cyclic_shared_list", "many_small_collections", "top_fan", "deep_types", "type_ref_ladder"]
+          "cyclic_inline_list", "cyclic_shared_list", "many_small_collections", "top_fan", "deep_types", "type_ref_ladder",
+          "prim_lists", "cyclic_inline_int_list", "cyclic_inline_float_list", "cyclic_inline_string_list",
+          "cyclic_shared_prim_list"]
 DEPTH = 60
+ADDRESS_SPACE_CAP = 4 * 1024 ** 3        # a loop that does not end usually also allocates without end: MemoryError, not swap
 
 
 def make_ts(cassis):
@@ -28,6 +31,10 @@ def make_ts(cassis):
     ts.create_feature(n, "lst", "uima.cas.FSList")
     ts.create_feature(n, "slst", "uima.cas.FSList", multipleReferencesAllowed=True)
     ts.create_feature(n, "n", "uima.cas.Integer")
+    for f, kind in (("il", "Integer"), ("fl", "Float"), ("sl", "String")):
+        ts.create_feature(n, f, "uima.cas.%sList" % kind)                                       # written inside the holder
+    ts.create_feature(n, "sil", "uima.cas.IntegerList", multipleReferencesAllowed=True)
+    ts.create_feature(n, "ssl", "uima.cas.StringList", multipleReferencesAllowed=True)
     prev = "uima.tcas.Annotation"
     for i in range(DEPTH):
         t = ts.create_type("d.T%d" % i, prev)
@@ -46,6 +53,20 @@ def mklist(ts, heads, cyclic=False):
     if nodes:
         nodes[-1].tail = nodes[0] if cyclic else em()
     return nodes[0] if nodes else em()
+
+
+PRIM_VALUE = {"Integer": lambda i: i - 7, "Float": lambda i: i / 4.0 - 1.0, "String": lambda i: "s %d" % i}
+
+
+def mkplist(ts, kind, n, back_to=None):
+    """n nodes of uima.cas.NonEmpty<kind>List; the tail of the last one is an Empty<kind>List or node number back_to."""
+    ne, em = ts.get_type("uima.cas.NonEmpty%sList" % kind), ts.get_type("uima.cas.Empty%sList" % kind)
+    nodes = [ne(head=PRIM_VALUE[kind](i)) for i in range(n)]
+    for i in range(n - 1):
+        nodes[i].tail = nodes[i + 1]
+    if nodes:
+        nodes[-1].tail = em() if back_to is None else nodes[back_to]
+    return nodes if nodes else [em()]
 
 
 def add_ladder(ts, depth):
@@ -121,6 +142,34 @@ def build(cassis, shape, n):
             o = Node(n=k)
             o.slst = lst
             cas.add(o)
+    elif shape == "prim_lists":
+        # lists of primitive values thousands of elements long, inside the holder and shared (also entered in the middle)
+        owner = Node()
+        owner.il = mkplist(ts, "Integer", n)[0]
+        owner.fl = mkplist(ts, "Float", n // 2)[0]
+        owner.sl = mkplist(ts, "String", n // 2)[0]
+        cas.add(owner)
+        shared, sstr = mkplist(ts, "Integer", n), mkplist(ts, "String", n // 2)
+        for k in range(3):
+            o = Node(n=k)
+            o.sil = shared[0 if k < 2 else n // 2]
+            o.ssl = sstr[0]
+            cas.add(o)
+    elif shape in ("cyclic_inline_int_list", "cyclic_inline_float_list", "cyclic_inline_string_list"):
+        # the tail of the last node is the first node / a middle node / the last node itself
+        kind, feat, back = {"cyclic_inline_int_list": ("Integer", "il", 0), "cyclic_inline_float_list": ("Float", "fl", n // 2),
+                            "cyclic_inline_string_list": ("String", "sl", n - 1)}[shape]
+        owner = Node()
+        setattr(owner, feat, mkplist(ts, kind, n, back_to=back)[0])
+        cas.add(owner)
+    elif shape == "cyclic_shared_prim_list":
+        ints, strs = mkplist(ts, "Integer", n, back_to=0), mkplist(ts, "String", n // 2, back_to=n // 4)
+        for k in range(3):
+            o = Node(n=k)
+            o.sil = ints[0 if k < 2 else n // 2]
+            o.ssl = strs[0]
+            o.top = ints[n - 1]
+            cas.add(o)
     elif shape == "many_small_collections":
         targets = [Node(n=i) for i in range(10)]
         for i in range(n):
@@ -173,6 +222,11 @@ def timed(times, errors, name, fn):
 def main():
     warnings.simplefilter("ignore")
     shape, n = sys.argv[1], int(sys.argv[2])
+    try:
+        import resource
+        resource.setrlimit(resource.RLIMIT_AS, (ADDRESS_SPACE_CAP, ADDRESS_SPACE_CAP))
+    except Exception:  # noqa: no such limit on this platform
+        pass
     sys.setrecursionlimit(max(sys.getrecursionlimit(), 3000))
     import cassis
     from cassis.typesystem import TypeSystemMode
